@@ -1067,7 +1067,8 @@ func (eval Evaluator) tensorScaleInvariant(ct0 *rlwe.Ciphertext, ct1 *rlwe.Eleme
 		ringQ.Add(opOut.Value[1], tmpCt.Value[1], opOut.Value[1])
 	}
 
-	opOut.Scale = MulScaleInvariant(eval.parameters, ct0.Scale, tmp1Q0.Scale, level)
+	// The operands may have been swapped above: the scale is the one of ct0 times the one of ct1.
+	opOut.Scale = MulScaleInvariant(eval.parameters, tmp0Q0.Scale, tmp1Q0.Scale, level)
 
 	return
 }
